@@ -536,6 +536,7 @@ def check_C06(ctx):
                 for it_i, it in enumerate(gitems):
                     if it[0] == "heading" and (it_i + 1 == len(gitems) or gitems[it_i + 1][0] == "heading"): gitems.insert(it_i + 1, ("entry", "bread", "1"))
                 fg = {"food.yaml": book, "log.yaml": gen.render_items(r, gitems, crlf=False, final_newline=True)}
+                ctx.nontriv(fg["log.yaml"] + zone.encode())
                 for (bb, ee) in [(gd, gd), (gd, None), (None, gd), (gd - datetime.timedelta(days=1), gd)]:
                     keep = lambda i, bb=bb, ee=ee: (bb is None or gds[i] >= bb) and (ee is None or gds[i] <= ee)
                     fdel = {"food.yaml": book, "log.yaml": gen.render_items(r, delete_days(gitems, keep), crlf=False, final_newline=True)}
@@ -554,6 +555,7 @@ def check_C06(ctx):
                 for it_i, it in enumerate(gitems):
                     if it[0] == "heading" and (it_i + 1 == len(gitems) or gitems[it_i + 1][0] == "heading"): gitems.insert(it_i + 1, ("entry", "bread", "1"))
                 fg = {"food.yaml": book, "log.yaml": gen.render_items(r, gitems, crlf=False, final_newline=True)}
+                ctx.nontriv(fg["log.yaml"] + zone.encode())
                 for arg, offd in [("today", 0), ("yesterday", -1), (gd.strftime("%Y/%m/%d"), 0)]:
                     sel = gd + datetime.timedelta(days=offd)
                     keep = lambda i, sel=sel: gds[i] == sel
@@ -569,6 +571,7 @@ def check_C06(ctx):
             for it_i, it in enumerate(fitems):
                 if it[0] == "heading" and (it_i + 1 == len(fitems) or fitems[it_i + 1][0] == "heading"): fitems.insert(it_i + 1, ("entry", "bread", "1"))
             ff = {"food.yaml": book, "log.yaml": gen.render_items(r, fitems, crlf=False, final_newline=True)}
+            ctx.nontriv(ff["log.yaml"])
             for (bb, ee) in [((2021, 1, 11), None), (None, (2021, 1, 31)), ((1600, 1, 1), (2400, 1, 1)), ((1, 1, 1), (1677, 9, 21)), ((2262, 4, 12), None), (None, (1500, 6, 1)), ((2021, 1, 21), (9999, 12, 31))]:
                 keep = lambda i, bb=bb, ee=ee: (bb is None or fds[i] >= bb) and (ee is None or fds[i] <= ee)
                 fdel = {"food.yaml": book, "log.yaml": gen.render_items(r, delete_days(fitems, keep), crlf=False, final_newline=True)}
